@@ -11,6 +11,7 @@
 
    Executable definitions only (proofs: Proofs/Style.v).  Tied to the implementation by the correspondence
    operations of tools/props/c04.py (same inputs through the public API, comparison inside Coq). *)
+From Coq Require Import String.
 From RV Require Import Model.Base Model.StylePrims Gen.LeafStyle Model.TreeValid.
 Local Open Scope Q_scope.
 
@@ -203,3 +204,19 @@ Definition ts_mag (t : ts) : Q :=
     (Qmax_m (Qabs_m (t_sy t)) (Qmax_m (Qabs_m (t_tx t)) (Qabs_m (t_ty t)))))).
 Definition KnownClass_product_overflow (a b : ts) : bool :=
   negb (Qleb (2 * ts_mag a * ts_mag b + ts_mag a) F32_MAX).
+
+(* ---------------------------------------------------------------- the `inherit` keyword *)
+(* Hand-reviewed: the presentation attributes usvg reads whose grammar accepts the keyword `inherit` (SVG 1.1 property
+   index + the SVG 2 / CSS text properties usvg supports).  svgtree resolves the keyword only for the attributes of
+   `AId::allows_inherit_value` (Gen/LeafStyle.v allows_inherit_value_list); an attribute missing there keeps the literal
+   text `inherit` as its value (font-family="inherit" becomes the family name `inherit`). *)
+Local Open Scope string_scope.
+Definition expected_inherit_attrs : list string :=
+  ["AlignmentBaseline"; "BaselineShift"; "ClipPath"; "ClipRule"; "Color"; "ColorInterpolationFilters"; "Direction"; "Display";
+   "DominantBaseline"; "Fill"; "FillOpacity"; "FillRule"; "Filter"; "FloodColor"; "FloodOpacity"; "FontFamily"; "FontKerning";
+   "FontSize"; "FontStretch"; "FontStyle"; "FontVariant"; "FontWeight"; "ImageRendering"; "Kerning"; "LetterSpacing"; "MarkerEnd";
+   "MarkerMid"; "MarkerStart"; "Mask"; "Opacity"; "Overflow"; "ShapeRendering"; "StopColor"; "StopOpacity"; "Stroke";
+   "StrokeDasharray"; "StrokeDashoffset"; "StrokeLinecap"; "StrokeLinejoin"; "StrokeMiterlimit"; "StrokeOpacity"; "StrokeWidth";
+   "TextAnchor"; "TextDecoration"; "TextRendering"; "Visibility"; "WordSpacing"; "WritingMode"].
+Definition inherit_resolved (a : string) : bool := existsb (String.eqb a) allows_inherit_value_list.
+Definition inherit_missing : list string := filter (fun a => negb (inherit_resolved a)) expected_inherit_attrs.
